@@ -275,7 +275,7 @@ def classify_failure(L, lines, clause, active_ids, breakable=None):
         if breakable is None:
             cmd = "breakableF" if fx else "breakable"
             breakable = driver("C18", [f"({cmd} {L} " + " ".join(enc(l) for l in lines) + ")"])[0] == "1"
-        return set() if breakable else {"C18-unbreakable-raises"} & active_ids
+        return set() if breakable else {"C18-unbreakable-raises", "C18-unbreakable-directive-raises"} & active_ids
     if clause in ("same-program", "same-program-fparser"):
         ids = {REASON_TO_FINDING[r] for _, r in spec.unsafe_reasons(L, lines, fixed=fx, line_type=live_type)}
         if fx:      # repaired classes are no longer excused
